@@ -46,7 +46,9 @@ func (e *env) randomOp() {
 		e.settlePending(u)
 		return
 	}
-	switch r.Intn(50) {
+	switch r.Intn(52) {
+	case 50, 51:
+		e.multiSend(u, e.perturbInts([]int{e.live[r.Intn(len(e.live))], e.live[r.Intn(len(e.live))]}), natives[r.Intn(3)], e.pickAmt())
 	case 42, 43:
 		// touch the identity records pending verify requests hang on: same value (date moves), new value, delete
 		who := []int{1, 2, 3, 4}[r.Intn(4)]
@@ -803,6 +805,42 @@ func scenarioPrefixes(e *env) {
 	e.reimport()
 }
 
+// every list-valued field of the proposal contents and messages the monitor drives, in every list variant (an existing entry
+// repeated, a new entry, a new entry twice, empty, permuted, one removed, the whole list twice), on objects that hold coins
+func scenarioListStructures(e *env) {
+	e.setup()
+	e.begin(5, 0)
+	for _, bid := range []uint64{1, 2} {
+		e.bk = bid
+		e.basketMintCoins(2, coins("ubtc", 2_000_000).Add(coin("xeth", 3_000_000)))
+		e.basketSwap(2, "ubtc", 100_000, "xeth")
+	}
+	for k := 0; k < nListVariants; k++ {
+		e.bk = uint64(1 + k%2)
+		e.basketEditV(2, 1, k)
+		e.spUpdateV([]string{"sp1", "sp10"}[k%2], 100+int64(k), false, k)
+		e.withdrawProposal("sp1", listVariant([]int{3, 4}, k, 1, func() (int, bool) { return 0, true }), coins("ukex", 1_000+int64(k)))
+		e.surplusProposal(5, listVariant([]uint64{1, 2}, k, 0, func() (uint64, bool) { return 7, true }))
+		e.multiSend(2, listVariant([]int{3, 4}, k, 0, func() (int, bool) { return 5, true }), "ukex", 10+int64(k))
+		e.coll = []string{"coll1", "coll10"}[k%2]
+		e.collUpdate(listVariant([]collectivestypes.WeightedSpendingPool{{Name: "sp1", Weight: sdk.NewDecWithPrec(5, 1)}, {Name: "sp10", Weight: sdk.NewDecWithPrec(5, 1)}}, k, 0,
+			func() (collectivestypes.WeightedSpendingPool, bool) {
+				return collectivestypes.WeightedSpendingPool{Name: "nosuchpool", Weight: sdk.NewDecWithPrec(1, 1)}, true
+			}), 14400)
+		d := e.c.App.Layer2Keeper.GetDapp(e.ctx(), "dapp1")
+		e.dappUpsert(&d)
+		e.tipRequestIDs(1+k%4, 1+(k+1)%4, listVariant([]uint64{1, 2}, k, 0, func() (uint64, bool) { return 99, true }), 300)
+	}
+	e.coll = "coll1"
+	e.bk = 1
+	e.basketBurn(2, 100_000)
+	e.end()
+	e.begin(20_000, 1)
+	e.distributionProposal("sp1")
+	e.distributionProposal("sp10")
+	e.end()
+}
+
 // layer2 MintIssueTx mints the native token
 func scenarioNativeIssue(e *env) {
 	e.setup()
@@ -851,7 +889,7 @@ func main() {
 	for _, sc := range []struct {
 		name string
 		f    func(*env)
-	}{{"scenario:slash_then_redeem", scenarioSlash}, {"scenario:reward_rounding", scenarioRounding}, {"scenario:native_issue", scenarioNativeIssue}, {"scenario:proposal_payouts", scenarioProposals}, {"scenario:rotation_reimport", scenarioRotation}, {"scenario:escrows_interleaved", scenarioEscrows}, {"scenario:rounding_boundaries", scenarioBoundaries}, {"scenario:prefix_collisions", scenarioPrefixes}} {
+	}{{"scenario:slash_then_redeem", scenarioSlash}, {"scenario:reward_rounding", scenarioRounding}, {"scenario:native_issue", scenarioNativeIssue}, {"scenario:proposal_payouts", scenarioProposals}, {"scenario:rotation_reimport", scenarioRotation}, {"scenario:escrows_interleaved", scenarioEscrows}, {"scenario:rounding_boundaries", scenarioBoundaries}, {"scenario:prefix_collisions", scenarioPrefixes}, {"scenario:list_structures", scenarioListStructures}} {
 		e := newEnv(seed, dist)
 		if sc.name == "scenario:rounding_boundaries" {
 			e = newEnvN(seed, dist, 8, 8)
